@@ -174,7 +174,17 @@ def campaign_gate(cx):
                             cx.check(ok_hi and ok_lo, key + ":range", "the scan covers applied+1 .. committed (found %s .. %s)" % (show(lo)[:80], show(hi)), cc)
     cx.check(n >= 3, "floor", "election entry points were found")
     # the vote-carried commit fast-forward: a (pre)candidate steps down if it learns of a conf change
-    mcv = [c for c in cx.prog.call_sites_of("RaftLog::maybe_commit") if any(is_f(a, "Message.commit_term") for a in call_args(cx, c))]
+    def _carries_commit_term(c):
+        a_ = call_args(cx, c)
+        if any(is_f(x, "Message.commit_term") for x in a_):
+            return True
+        # ... or hands down a parameter that its (private) callers fill with m.commit_term
+        ps = [x for x in a_ if x[0] == "param"]
+        if ps and c.fn.vis != "Public":
+            ups = callers_of(cx, c.fn)
+            return bool(ups) and all(any(is_f(call_args(cx, u)[p_[1] - 1], "Message.commit_term") for p_ in ps if p_[1] - 1 < len(call_args(cx, u))) for u in ups)
+        return False
+    mcv = [c for c in cx.prog.call_sites_of("RaftLog::maybe_commit") if _carries_commit_term(c)]
     cx.check(bool(mcv), "fast-forward:fn", "the vote-carried commit fast-forward exists")
     for mc in mcv:
         f = mc.fn
